@@ -5,7 +5,7 @@ patch="$1"; shift
 git -C /repo apply "$patch" || { echo "patch does not apply"; exit 2; }
 for p in "$@"; do
   echo "== $p with $(basename $(dirname $patch))"
-  (cd /verif && python3 check.py "$p" --tier quick 2>&1 | grep -E "VIOLATION|KNOWN|tier=" | head -8)
+  (cd /verif && python3 check.py "$p" --tier quick 2>&1 | grep -E "VIOLATION|tier=" | head -8)
 done
 git -C /repo checkout -- .
 # rebuild the harness against the clean tree
